@@ -324,7 +324,7 @@ def run(ctx):
     gaps = {"step": [0, 0], "fast": [0, 0]}
     for t in traces:
         for sy in t['hdr']['syms']:
-            for kk in range(1, min(len(sy['inp']), len(sy['fin']))):
+            for kk in range(t['hdr']['W'] + 1, min(len(sy['inp']), len(sy['fin']))):      # trading minutes after the first
                 if sy['inp'][kk][1] != sy['inp'][kk - 1][2]:
                     gaps[t['hdr']['mode']][0 if sy['fin'][kk] == sy['inp'][kk] else 1] += 1
     ctx.evaluations = len(traces) + len(helpers)
